@@ -1233,6 +1233,55 @@ def _split_tensordict(
     return _split_generator()
 
 
+def _parse_to_py(args, kwargs):
+    # Python transcription of torch._C._nn._parse_to (which dynamo cannot trace). The overloads, in the order torch tries them:
+    #   to(device=None, dtype=None, non_blocking=False, copy=False, *, memory_format=None)
+    #   to(dtype, non_blocking=False, copy=False, *, memory_format=None)
+    #   to(tensor, non_blocking=False, copy=False, *, memory_format=None)
+    if args and isinstance(args[0], torch.dtype):
+        names = ("dtype", "non_blocking", "copy")
+    elif (args and isinstance(args[0], torch.Tensor)) or (
+        not args and "tensor" in kwargs
+    ):
+        names = ("tensor", "non_blocking", "copy")
+    else:
+        names = ("device", "dtype", "non_blocking", "copy")
+    if len(args) > len(names):
+        raise TypeError(
+            f"to() takes from 0 to {len(names)} positional arguments but {len(args)} were given"
+        )
+    params = dict(zip(names, args))
+    for key, value in kwargs.items():
+        if key in params or (key not in names and key != "memory_format"):
+            raise TypeError(
+                f"to() received an invalid combination of arguments (unexpected or duplicate argument {key})"
+            )
+        params[key] = value
+    device = params.get("device")
+    dtype = params.get("dtype")
+    tensor = params.get("tensor")
+    non_blocking = params.get("non_blocking", False)
+    if (
+        not isinstance(non_blocking, bool)
+        or not isinstance(params.get("copy", False), bool)
+        or not (dtype is None or isinstance(dtype, torch.dtype))
+        or ("tensor" in params and not isinstance(tensor, torch.Tensor))
+        or not (device is None or isinstance(device, (str, torch.device, int)))
+        or isinstance(device, bool)
+    ):
+        raise TypeError(
+            "to() received an invalid combination of arguments (wrong argument type)"
+        )
+    if "copy" in params:
+        raise RuntimeError(".to() does not accept copy argument")
+    if tensor is not None:
+        device = tensor.device
+        dtype = tensor.dtype
+    elif device is not None:
+        device = torch.device(device)
+    return device, dtype, non_blocking, params.get("memory_format")
+
+
 def _parse_to(*args, **kwargs):
     batch_size = kwargs.pop("batch_size", None)
     non_blocking_pin = kwargs.pop("non_blocking_pin", False)
@@ -1244,19 +1293,7 @@ def _parse_to(*args, **kwargs):
             *args, **kwargs
         )
     else:
-        non_blocking = kwargs.get("non_blocking", False)
-        convert_to_format = kwargs.get("convert_to_format")
-        if len(args) > 0:
-            device = torch.device(args[0])
-            if len(args) > 1:
-                dtype = args[1]
-            else:
-                dtype = kwargs.get("dtype")
-        else:
-            device = kwargs.get("device")
-            dtype = kwargs.get("dtype")
-        if device is not None:
-            device = torch.device(device)
+        device, dtype, non_blocking, convert_to_format = _parse_to_py(args, kwargs)
 
     if device and device.type == "cuda" and device.index is None:
         device = torch.device(f"cuda:{torch.cuda.current_device()}")
